@@ -312,6 +312,9 @@ func TestVerif(t *testing.T) {
 		t.Fatalf("unknown property %q", *fProp)
 	}
 	cfg := runCfg{tier: *fTier, seed: *fSeed, shard: *fShard, nshards: *fNShards, scale: *fScale}
+	if *fTier == "quick" {
+		maxInvsPerCheck = 250000
+	}
 	res := newResult()
 	scs := mon.scenarios(cfg)
 	var lastProgress atomic.Int64
